@@ -20,6 +20,8 @@ import (
 	"encoding/hex"
 	"encoding/json"
 	"fmt"
+	"io"
+	"net"
 	"net/http"
 	"os"
 	"os/exec"
@@ -33,6 +35,7 @@ import (
 
 	"github.com/santhosh-tekuri/jsonschema/v6"
 
+	"rivaas.dev/app"
 	"rivaas.dev/openapi"
 	"rivaas.dev/openapi/validate"
 	"verif/harness/c07/corpus"
@@ -160,6 +163,7 @@ type caseT struct {
 	Ops    []opT `json:"ops"`
 	Pause  bool  `json:"pause,omitempty"` // 1.1 s between two of the generations
 	Exec   bool  `json:"exec,omitempty"`  // one of the generations in a fresh process
+	App    bool  `json:"app,omitempty"`   // also serve the operations from two app instances and compare body and ETag
 }
 
 func (o *opT) method() string {
@@ -171,22 +175,7 @@ func (o *opT) method() string {
 
 // construct builds the openapi.Operation; panics (invalid path) propagate to the caller.
 func (o *opT) construct() openapi.Operation {
-	var opts []openapi.OperationOption
-	if o.Summary != "" {
-		opts = append(opts, openapi.WithSummary(o.Summary))
-	}
-	if o.Desc != "" {
-		opts = append(opts, openapi.WithDescription(o.Desc))
-	}
-	if o.OpID != "" {
-		opts = append(opts, openapi.WithOperationID(o.OpID))
-	}
-	if o.Req != nil {
-		opts = append(opts, openapi.WithRequest(zeroOf(o.Req.build())))
-	}
-	for _, r := range o.Resps {
-		opts = append(opts, openapi.WithResponse(r.Status, zeroOf(r.T.build())))
-	}
+	opts := o.options()
 	switch o.Ctor {
 	case "GET":
 		return openapi.GET(o.Path, opts...)
@@ -206,6 +195,26 @@ func (o *opT) construct() openapi.Operation {
 		return openapi.TRACE(o.Path, opts...)
 	}
 	return openapi.Op(o.method(), o.Path, opts...)
+}
+
+func (o *opT) options() []openapi.OperationOption {
+	var opts []openapi.OperationOption
+	if o.Summary != "" {
+		opts = append(opts, openapi.WithSummary(o.Summary))
+	}
+	if o.Desc != "" {
+		opts = append(opts, openapi.WithDescription(o.Desc))
+	}
+	if o.OpID != "" {
+		opts = append(opts, openapi.WithOperationID(o.OpID))
+	}
+	if o.Req != nil {
+		opts = append(opts, openapi.WithRequest(zeroOf(o.Req.build())))
+	}
+	for _, r := range o.Resps {
+		opts = append(opts, openapi.WithResponse(r.Status, zeroOf(r.T.build())))
+	}
+	return opts
 }
 
 type result struct {
@@ -357,6 +366,163 @@ func validatorAgrees(c *caseT, js []byte) bool {
 }
 
 var repoValidator = validate.New()
+
+// ---------------------------------------------------------------------------------------------
+// the served specification: GET <spec path> on an app (body + ETag)
+
+func freePort() int {
+	l, err := net.Listen("tcp", "127.0.0.1:0")
+	if err != nil {
+		return 0
+	}
+	defer l.Close()
+	return l.Addr().(*net.TCPAddr).Port
+}
+
+type servedT struct {
+	body, etag string
+	notMod     int
+	ok         bool
+}
+
+// serve starts an app with the case's operations as documented routes, fetches the specification
+// and shuts the app down. ok=false: the routes cannot be registered on a router (conflict), or the
+// app did not come up — the probe is then skipped, not failed.
+func serve(c *caseT) (res servedT) {
+	defer func() {
+		if p := recover(); p != nil {
+			res = servedT{}
+		}
+	}()
+	port := freePort()
+	if port == 0 {
+		return servedT{}
+	}
+	ver := openapi.V30x
+	if c.V31 {
+		ver = openapi.V31x
+	}
+	a, err := app.New(app.WithServiceName("c07"), app.WithHost("127.0.0.1"), app.WithPort(port),
+		app.WithOpenAPI(openapi.WithTitle("t", "1"), openapi.WithVersion(ver), openapi.WithStrictDownlevel(c.Strict)))
+	if err != nil {
+		return servedT{}
+	}
+	h := func(*app.Context) {}
+	for i := range c.Ops {
+		o := &c.Ops[i]
+		doc := app.WithDoc(o.options()...)
+		switch o.Ctor {
+		case "GET":
+			a.GET(o.Path, h, doc)
+		case "POST":
+			a.POST(o.Path, h, doc)
+		case "PUT":
+			a.PUT(o.Path, h, doc)
+		case "PATCH":
+			a.PATCH(o.Path, h, doc)
+		case "DELETE":
+			a.DELETE(o.Path, h, doc)
+		case "HEAD":
+			a.HEAD(o.Path, h, doc)
+		case "OPTIONS":
+			a.OPTIONS(o.Path, h, doc)
+		default:
+			return servedT{}
+		}
+	}
+	ctx, cancel := context.WithCancel(context.Background())
+	done := make(chan error, 1)
+	go func() {
+		defer func() {
+			if p := recover(); p != nil {
+				done <- fmt.Errorf("panic: %v", p)
+			}
+		}()
+		done <- a.Start(ctx)
+	}()
+	defer func() {
+		cancel()
+		select {
+		case <-done:
+		case <-time.After(5 * time.Second):
+		}
+	}()
+	url := fmt.Sprintf("http://127.0.0.1:%d/openapi.json", port)
+	var resp *http.Response
+	for i := 0; i < 150; i++ {
+		select {
+		case <-done: // Start returned early: the app did not come up
+			return servedT{}
+		default:
+		}
+		resp, err = http.Get(url)
+		if err == nil {
+			break
+		}
+		time.Sleep(20 * time.Millisecond)
+	}
+	if err != nil {
+		return servedT{}
+	}
+	b, _ := io.ReadAll(resp.Body)
+	resp.Body.Close()
+	if resp.StatusCode != http.StatusOK {
+		return servedT{}
+	}
+	res = servedT{body: string(b), etag: resp.Header.Get("ETag"), ok: true}
+	req, _ := http.NewRequest(http.MethodGet, url, nil)
+	req.Header.Set("If-None-Match", res.etag)
+	if r2, e2 := http.DefaultClient.Do(req); e2 == nil {
+		res.notMod = r2.StatusCode
+		r2.Body.Close()
+	}
+	return res
+}
+
+// appProbe: two app instances serve byte-identical specifications with the same ETag, the ETag is
+// the quoted SHA-256 of the body, and a conditional request with it is answered 304.
+func appProbe(c *caseT, st *hx.Stats) bool {
+	s1 := serve(c)
+	if c.Pause {
+		time.Sleep(1100 * time.Millisecond)
+	}
+	s2 := serve(c)
+	if !s1.ok || !s2.ok {
+		if st != nil {
+			st.Count("app_probe_skipped")
+		}
+		return true
+	}
+	if st != nil {
+		st.Count("app_probe")
+	}
+	sum := sha256.Sum256([]byte(s1.body))
+	return s1.body == s2.body && s1.etag == s2.etag && s1.etag == fmt.Sprintf(`"%x"`, sum) && s1.notMod == http.StatusNotModified
+}
+
+// appEligible: standard-method constructors, plain router paths, no two routes with the same
+// method and path
+func appEligible(c *caseT) bool {
+	seen := map[string]bool{}
+	for i := range c.Ops {
+		o := &c.Ops[i]
+		switch o.Ctor {
+		case "GET", "POST", "PUT", "PATCH", "DELETE", "HEAD", "OPTIONS":
+		default:
+			return false
+		}
+		if strings.ContainsAny(o.Path, "{}*") || strings.Contains(o.Path, "//") || o.Path == "" || !strings.HasPrefix(o.Path, "/") ||
+			(len(o.Path) > 1 && strings.HasSuffix(o.Path, "/")) || strings.HasSuffix(o.Path, ":") {
+			return false
+		}
+		k := o.Ctor + " " + o.Path
+		if seen[k] {
+			return false
+		}
+		seen[k] = true
+	}
+	return len(c.Ops) > 0
+}
 
 // refsResolve: every "$ref" member of the document is a local JSON pointer that resolves.
 func refsResolve(js []byte) bool {
@@ -739,12 +905,12 @@ func emit(id string, c *caseT, st *hx.Stats) string {
 	l.Sep()
 	if pending != nil {
 		// what the supervisor reports if the real code kills the process (fatal stack overflow)
-		pending(in + " => P P 0 0 0 1" + hx.Comment(c))
+		pending(in + " => P P 0 0 0 1 1" + hx.Comment(c))
 	}
 
 	off := generate(c, false)
 	on := generate(c, true)
-	mv, rr, stable, va := false, false, true, true
+	mv, rr, stable, va, appOK := false, false, true, true, true
 	switch off.kind {
 	case "CP":
 		l.Tok("CP")
@@ -770,6 +936,9 @@ func emit(id string, c *caseT, st *hx.Stats) string {
 		if stable && c.Exec {
 			stable = execDigest(c) == digest(off.json)
 		}
+		if c.App {
+			appOK = appProbe(c, st)
+		}
 	}
 	switch on.kind {
 	case "CP":
@@ -785,7 +954,7 @@ func emit(id string, c *caseT, st *hx.Stats) string {
 			l.Tok("X")
 		}
 	}
-	l.Bool(mv).Bool(rr).Bool(stable).Bool(va)
+	l.Bool(mv).Bool(rr).Bool(stable).Bool(va).Bool(appOK)
 	if st != nil {
 		sh := shapes(e)
 		st.Case(in[len(id):], sh.ptrSliceMap || sh.embed2)
@@ -1088,6 +1257,13 @@ func fixedCases() []caseT {
 			// K07b: time.Time example, generations 1.1 s apart and in a fresh process
 			caseT{V31: v31, Pause: true, Exec: true, Ops: []opT{{Ctor: "GET", Path: "/t", Resps: ok(TX{K: "struct",
 				F: []FX{{Name: "When", Tag: `json:"when"`, T: TX{K: "time"}}}})}}},
+			// the served specification: body and ETag of two app instances 1.1 s apart (K07b, K07h shapes)
+			caseT{V31: v31, Pause: true, App: true, Ops: []opT{
+				{Ctor: "GET", Path: "/t/:id", Summary: "s", Resps: ok(TX{K: "struct", F: []FX{{Name: "When", Tag: `json:"when"`, T: TX{K: "time"}}}})},
+				{Ctor: "POST", Path: "/a", Summary: "s", Resps: ok(ct("dup.Item"))},
+				{Ctor: "POST", Path: "/b", Summary: "s", Resps: ok(TX{K: "corpus", I: idx("dup.Item") + 1})},
+				{Ctor: "POST", Path: "/c", Summary: "s", Resps: ok(ct("dup.Sub"))},
+				{Ctor: "POST", Path: "/d", Summary: "s", Resps: ok(TX{K: "corpus", I: idx("dup.Sub") + 1})}}},
 			// K07c: instantiated generic whose argument has an import path with '/'
 			caseT{V31: v31, Ops: []opT{{Ctor: "GET", Path: "/g", Resps: ok(TX{K: "corpus", I: generic})}}},
 			// K07d: embedded structs repeat a required JSON name (depth 3) / a dynamic variant
@@ -1164,6 +1340,10 @@ func main() {
 	from, _ := strconv.Atoi(os.Getenv("C07_FROM"))
 	w := hx.Out()
 	defer w.Flush()
+	// the app prints a start-up banner to os.Stdout; the case stream keeps the original descriptor
+	if null, err := os.OpenFile(os.DevNull, os.O_WRONLY, 0); err == nil {
+		os.Stdout = null
+	}
 	idx := 0
 	run := func(id string, c *caseT, st *hx.Stats) {
 		if idx >= from {
@@ -1189,9 +1369,9 @@ func main() {
 		for i, c := range fixedCases() {
 			run(fmt.Sprintf("c07-fix-%d", i), &c, st)
 		}
-		pauses, execs := 2, 3
+		pauses, execs, apps := 2, 3, 3
 		if a.Tier == "thorough" {
-			pauses, execs = 4, 12
+			pauses, execs, apps = 4, 12, 10
 		}
 		for i := 0; i < a.N; i++ {
 			c := genCase(r)
@@ -1202,6 +1382,10 @@ func main() {
 			if execs > 0 && r.Chance(1, 40) {
 				c.Exec = true
 				execs--
+			}
+			if apps > 0 && r.Chance(1, 20) && appEligible(&c) {
+				c.App = true
+				apps--
 			}
 			run(fmt.Sprintf("c07-%d-%d", a.Seed, i), &c, st)
 		}
